@@ -15,7 +15,7 @@ ASSUMPTIONS = [
     "children of a combinator satisfy the parser contract K (DESIGN 3.2); it is what the stub may do, and it is itself asserted of every combinator proved",
     "emitted-error list: the proof checks lengths at every observation point; that equal lengths imply equal contents rests on the list being used as a stack (only push / truncate / extend-from-inner / in-place label), which is re-checked by a source scan on every run and by the native small-scope sweep which compares ids",
     "usize is a 64-bit vector in Kani (machine arithmetic is not treated as mathematical)",
-    "features not built under Kani: stacker, memoization, regex, lexical-numbers, serde, bytes, sync, nightly",
+    "features not built under Kani: stacker, regex, lexical-numbers, serde, bytes, sync, nightly (memoization is built for the Memoized harnesses only, with hashbrown::HashMap replaced by the finite-map contract kani/hashmodel.rs through a cfg-guarded hook: an assumed, unverified contract on the dependency)",
     "tuple arities > 3 of Choice/Group/pratt tables are covered by macro uniformity only",
 ]
 
@@ -109,6 +109,7 @@ UNCOVERED.update({
     "C08": ["nested_delimiters (composition of proved combinators)", "skip strategies bounded to 2 rounds"],
     "C09": ["pratt_go loop bounded (2 operands, stubs emit nothing)", "tuple tables of arity > 2", "prefix/postfix tables"],
     "C10": ["IoInput (BufReader/Seek)", "Graphemes (unicode-segmentation)", "Stream 512-item batch boundary", "bytes feature"],
+    "C11": ["hashbrown::HashMap is replaced by an assumed finite-map contract (kani/hashmodel.rs, <= 3 bindings); the real table is exercised only natively", "distinct zero-sized memoized parsers at the same address share a memo key: recorded finding", "termination of a whole left-recursive parse: only the re-entry contract and the nesting bound (Verus lemma) are proved", "memoization presupposes that re-running a parser at a position gives the same outcome (context- and state-dependent parsers are outside the property's 'grammars')"],
     "C12": ["stack depth / stacker::maybe_grow (external)", "mutual recursion beyond one level is by induction over the forwarding contract", "define()'s panic message formatting (entered through the hook under Kani; the real define() is run natively)"],
     "C13": ["thread clause (no threads in Kani)", "Send/Sync are type-level facts"],
     "C14": ["regex()", "unicode::ident / keyword beyond ASCII (unicode-ident tables)", "Graphemes", "text parsers bounded to 3 remaining tokens"],
@@ -117,5 +118,5 @@ UNCOVERED.update({
     "C17": ["Rich::label_with / in_context: bounded to <= 2 expectations / 2 contexts", "as_context's decoration of already emitted errors (loop) is only exercised with <= 2 errors"],
     "C18": ["with_state: the invariant is deliberately not maintained for the outer inspector across with_state (by design of with_state)", "nested_in shares the inspector between outer and inner input (by design)"],
     "C19": ["N > 3", "Rc/Arc ContainerExactly impls are commented out in the library"],
-    "C20": ["termination / time complexity / stack depth are not decided", "debug_assert progress checks compiled out in driver harnesses", "memoized() (C11 not applicable)"],
+    "C20": ["termination / time complexity / stack depth are not decided", "debug_assert progress checks compiled out in driver harnesses", "memoized(): panic-freedom under the assumed map contract only"],
 })
